@@ -123,7 +123,7 @@ class Auth(auth.BaseAuth):
                 self._verify = functools.partial(self._bcrypt, bcrypt)
             else:
                 self._verify = self._autodetect
-                if self._htpasswd_bcrypt_use:
+                if self._has_bcrypt:
                     self._verify_bcrypt = functools.partial(self._bcrypt, bcrypt)
         else:
             raise RuntimeError("The htpasswd encryption method %r is not "
